@@ -165,3 +165,8 @@ def same_outer(a, b):
         return a.virtual_leg('first') == b.virtual_leg('first') and a.virtual_leg('last') == b.virtual_leg('last')
     except Exception:
         return False
+
+
+def dense_local(vec, loc):
+    """dense local vector over the local basis"""
+    return vec.to_numpy(legs={0: loc.space}).reshape(-1)
